@@ -17,7 +17,9 @@ def comp_value(max_len=40):
     small = st.lists(_BYTE, min_size=0, max_size=min(max_len, 12)).map(bytes)
     sizes = [n for n in (0, 1, 2, 3, 4, 8, 32, 33, 252, 253, 300) if n <= max_len]
     sized = st.sampled_from(sizes).flatmap(lambda n: st.binary(min_size=n, max_size=n))
-    return st.one_of(small, small, small, sized, st.binary(max_size=max_len))
+    # values made of one repeated character that URI schemes treat specially ('...', '%%', '==', ...)
+    runs = st.tuples(st.sampled_from(list(b'..%=/~ ')), st.integers(1, min(max_len, 6))).map(lambda t: bytes([t[0]]) * t[1])
+    return st.one_of(small, small, small, small, small, small, sized, sized, st.binary(max_size=max_len), st.binary(max_size=max_len), runs)
 
 
 def _number_value():
